@@ -77,9 +77,9 @@ def lay_out(rng, root, blobs):
     return args
 
 
-def run_cli(args, threads, branch, log=None, sched=None, faults=None, timeout=20, cwd=None):
+def run_cli(args, threads, branch, log=None, sched=None, faults=None, timeout=20, cwd=None, extra=None):
     exe = vlib.build_cli()
-    cmd = [exe] + args + ["-t", "lcov", "--threads", str(threads)] + (["--branch"] if branch else [])
+    cmd = [exe] + args + ["-t", "lcov", "--threads", str(threads)] + (["--branch"] if branch else []) + (extra or [])
     env = dict(os.environ)
     for k in ("GRCOV_VERIF_LOG", "GRCOV_VERIF_SCHED", "GRCOV_VERIF_FAULT"):
         env.pop(k, None)
@@ -146,7 +146,9 @@ def parse_log(path):
         if len(parts) < 3:
             continue
         t, kind, detail = parts[0], parts[1], parts[2]
-        key = detail.split("#", 1)[1] if "#" in detail else detail
+        # content items are identified by their content hash (the archive name in front differs with the layout);
+        # gcno items by their relative name
+        key = detail if detail.endswith("#gcno#0") else (detail.split("#", 1)[1] if "#" in detail else detail)
         per.setdefault(t, []).append((kind, key))
         order.append((t, kind, key))
     return per, order
